@@ -320,7 +320,73 @@ def snapshot(cells, rec):
     snap["ext:yaml.SafeDumper.representers"] = fingerprint(sorted(str(k) for k in yaml.SafeDumper.yaml_representers))
     snap["ext:SnowfakeryDumper.representers"] = fingerprint(sorted(str(k) for k in SnowfakeryDumper.yaml_representers))
     snap["ext:sys.modules"] = len(sys.modules)
+    for k, v in settings_vector().items():
+        snap["set:" + k] = v
     return snap
+
+
+def settings_vector():
+    """Process-wide settings of the standard library / third-party modules that code of the package could write
+    (the cells `Proc.settings` of the model).  Everything is read without changing it (umask is read by set-and-restore)."""
+    import csv
+    import decimal
+    import gc
+    import locale
+    import logging
+    import signal
+    import socket
+    import threading
+    import time
+    import warnings
+
+    v = {}
+    v["csv.field_size_limit"] = repr(csv.field_size_limit())
+    v["csv.list_dialects"] = repr(sorted(csv.list_dialects()))
+    v["sys.getrecursionlimit"] = repr(sys.getrecursionlimit())
+    v["sys.getswitchinterval"] = repr(sys.getswitchinterval())
+    v["sys.excepthook"] = fingerprint(sys.excepthook)
+    v["sys.displayhook"] = fingerprint(sys.displayhook)
+    v["sys.gettrace"] = repr(sys.gettrace())
+    v["sys.getprofile"] = repr(sys.getprofile())
+    v["sys.dont_write_bytecode"] = repr(sys.dont_write_bytecode)
+    v["sys.meta_path"] = repr(len(sys.meta_path))
+    v["sys.path_hooks"] = repr(len(sys.path_hooks))
+    v["threading.excepthook"] = fingerprint(threading.excepthook)
+    try:
+        v["locale.getlocale"] = repr([locale.setlocale(c) for c in (locale.LC_CTYPE, locale.LC_NUMERIC, locale.LC_TIME, locale.LC_COLLATE,
+                                                                     locale.LC_MONETARY)])
+    except Exception as e:  # pragma: no cover
+        v["locale.getlocale"] = "error " + type(e).__name__
+    c = decimal.getcontext()
+    v["decimal.getcontext"] = repr((c.prec, c.rounding, c.Emin, c.Emax, c.capitals, c.clamp, sorted(str(t) for t, on in c.traps.items() if on)))
+    v["warnings.filters"] = fingerprint([(f[0], str(f[1]), getattr(f[2], "__name__", str(f[2])), str(f[3]), f[4]) for f in warnings.filters])
+    v["warnings.showwarning"] = fingerprint(warnings.showwarning)
+    v["signal.handlers"] = repr([(n, fingerprint(signal.getsignal(getattr(signal, n)))) for n in ("SIGINT", "SIGTERM", "SIGHUP", "SIGUSR1", "SIGPIPE")
+                                 if hasattr(signal, n) and n != "SIGALRM"])
+    v["socket.getdefaulttimeout"] = repr(socket.getdefaulttimeout())
+    v["gc"] = repr((gc.isenabled(), gc.get_threshold()))
+    v["time.tzname"] = repr((time.tzname, time.timezone))
+    um = os.umask(0)
+    os.umask(um)
+    v["os.umask"] = oct(um)
+    root = logging.getLogger()
+    v["logging.root"] = repr((root.level, len(root.handlers), logging.raiseExceptions, len(logging.Logger.manager.loggerDict) >= 0))
+    v["logging.snowfakery"] = repr([(n, lg.level, len(getattr(lg, "handlers", []))) for n, lg in sorted(logging.Logger.manager.loggerDict.items())
+                                    if n.startswith("snowfakery") and hasattr(lg, "level")])
+    v["io.DEFAULT_BUFFER_SIZE"] = repr(io.DEFAULT_BUFFER_SIZE)
+    try:
+        import atexit
+
+        v["atexit"] = repr(atexit._ncallbacks())
+    except Exception:  # pragma: no cover
+        pass
+    try:
+        import yaml
+
+        v["yaml.resolvers"] = repr(sum(len(x) for x in yaml.SafeLoader.yaml_implicit_resolvers.values()))
+    except Exception:  # pragma: no cover
+        pass
+    return v
 
 
 def cell_digest(rec):
@@ -378,7 +444,8 @@ def run_one(spec, rec, workroot, shared_dicts):
         uo = shared_dicts.setdefault("uo:" + spec["uo_key"], dict(spec.get("options") or {}))
     else:
         uo = dict(spec.get("options") or {})
-    passthrough = shared_dicts.setdefault("passthrough", [])
+    passthrough = shared_dicts.setdefault("passthrough", []) if not spec.get("passthrough") else list(spec["passthrough"])
+    update_input = os.path.join(workroot, spec["dir"], spec["update_input"]) if spec.get("update_input") else None
     dburls = shared_dicts.setdefault("dburls", [])
     out = io.StringIO()
     output_files = [out]
@@ -404,7 +471,7 @@ def run_one(spec, rec, workroot, shared_dicts):
                 kw["target_number"] = (reps, COUNT_REPS)
             generate_data(path if path else io.StringIO(spec["recipe"]), user_options=uo, dburls=dburls,
                           output_format="json", output_files=output_files, plugin_options=po, continuation_file=cont_in,
-                          update_passthrough_fields=passthrough, **kw)
+                          update_passthrough_fields=passthrough, update_input_file=update_input, **kw)
             res["rows"] = json_rows(out.getvalue())
             res["outcome"] = "ok"
         else:
@@ -416,7 +483,8 @@ def run_one(spec, rec, workroot, shared_dicts):
             try:
                 try:
                     generate(src, uo, stream, parent_application=app,
-                             continuation_file=cont_in, plugin_options=po, update_passthrough_fields=passthrough)
+                             continuation_file=cont_in, plugin_options=po, update_passthrough_fields=passthrough,
+                             update_input_file=update_input)
                     res["outcome"] = "ok"
                 finally:
                     res["rows"] = [[t, [[k, v] for k, v in fs]] for t, fs in stream.rows]
@@ -1027,7 +1095,58 @@ def po_pair(rng):
     return [a, b]
 
 
-GENS = [(gen_l2, 6), (gen_ref, 2), (gen_vars, 3), (gen_counters, 2), (gen_uid, 3), (gen_dataset, 4), (gen_dates, 3),
+def gen_update(rng):
+    """update mode: `update_input_file=` (the run kind in which `build_update_recipe` executes)"""
+    w = rng.choice(SAFE_WORDS)
+    n = rng.randint(1, 4)
+    csvtext = "name,qty,keep\n" + "".join(f"{w}{i},{rng.randint(1, 50)},k{i}\n" for i in range(n))
+    v = rng.choice([2, 3])
+    text = f"- snowfakery_version: {v}\n- object: Acc\n  fields:\n    newname: up-${{{{input.name}}}}\n    q: ${{{{input.qty}}}}\n"
+    return finish({"kind": "update", "recipe": text, "files": {"input.csv": csvtext}, "update_input": "input.csv",
+                   "passthrough": (["keep"] if rng.random() < 0.5 else []), "det": True,
+                   "api": rng.choice(["generate", "generate_data"]), "features": ["update_mode"]}, needs_dir=True)
+
+
+def gen_bigcsv(rng):
+    """a CSV dataset with one very long field: above csv's default `field_size_limit` (131072) it is rejected — alone and
+    after any history —, below it the recipe emits the length"""
+    over = rng.random() < 0.7
+    size = rng.choice([131073, 140000, 200000]) if over else rng.choice([1000, 100000, 131071])
+    csvtext = "name,big\nfirst," + ("x" * size) + "\n"
+    text = """- snowfakery_version: 3
+- plugin: snowfakery.standard_plugins.datasets.Dataset
+- object: Row
+  count: 1
+  fields:
+    __rec:
+      Dataset.iterate:
+        dataset: data.csv
+    name: ${{__rec.name}}
+    n: ${{__rec.big | length}}
+"""
+    return finish({"kind": "bigcsv", "recipe": text, "files": {"data.csv": csvtext}, "reps": 1, "det": True, "size": size,
+                   "features": ["dataset", "csv", "big_field"] + (["failing"] if over else [])}, needs_dir=True)
+
+
+def gen_misc_plugins(rng):
+    w = rng.choice(SAFE_WORDS) + str(rng.randint(0, 99))
+    text = f"""- snowfakery_version: 3
+- plugin: snowfakery.standard_plugins.base64.Base64
+- plugin: snowfakery.standard_plugins.file.File
+- object: Doc
+  count: 2
+  fields:
+    body:
+      File.file_data:
+        file: note.txt
+    b64:
+      Base64.encode: ${{{{body}}}}-${{{{id}}}}
+"""
+    return finish({"kind": "misc", "recipe": text, "files": {"note.txt": "note " + w}, "reps": 1, "det": True, "features": ["plugin"]},
+                  needs_dir=True)
+
+
+GENS = [(gen_update, 3), (gen_bigcsv, 3), (gen_misc_plugins, 1), (gen_l2, 6), (gen_ref, 2), (gen_vars, 3), (gen_counters, 2), (gen_uid, 3), (gen_dataset, 4), (gen_dates, 3),
         (gen_schedule_math, 1), (gen_plugin, 2), (gen_fail, 4), (gen_dataset_fail_inside, 1), (gen_continuation, 1)]
 
 
@@ -1076,6 +1195,13 @@ def fixed_sequences():
                 "reps": 1, "det": True, "options": dict(uo), "uo_key": "fixed", "decls": [["alpha", 2], ["beta", 5]], "features": ["shared_user_options"]})
     out.append([a, b])
     out.append(opt_group(rng, 3))
+    # process-wide settings: an update-mode run, then a CSV dataset whose field is above csv's default limit (rejected alone,
+    # must be rejected after any history), and the other way round
+    big, upd = None, gen_update(rng)
+    while big is None or big["size"] <= 131072:
+        big = gen_bigcsv(rng)
+    out.append([upd, big])
+    out.append([big, upd, gen_misc_plugins(rng), big])
     # the seeded-mutation shape: same relative URL text, different directories, both kinds
     for _ in range(2):
         a, b = gen_dataset(rng), gen_dataset(rng)
@@ -1334,7 +1460,13 @@ def check_sequence(rep, seq, res, baselines, known):
         base = baselines.get(spec["rid"])
         pcase = dict(case, position=i)
         # --- snapshots: nothing outside the allow-list changes (also for failed runs)
-        bad = [c for c in r["changed"] if c not in ALLOWED_CHANGES]
+        changed_settings = [c for c in r["changed"] if c.startswith("set:")]
+        if changed_settings:
+            rep.violation("C19:process-setting-changed",
+                          f"run {i} ({spec['kind']}, {r['outcome']}) left process-wide setting(s) of other modules changed: "
+                          + "; ".join(f"{c[4:]}: {r['changes'][c][0]} -> {r['changes'][c][1]}" for c in changed_settings),
+                          pcase, {c[4:]: r["changes"][c][0] for c in changed_settings}, {c[4:]: r["changes"][c][1] for c in changed_settings})
+        bad = [c for c in r["changed"] if c not in ALLOWED_CHANGES and not c.startswith("set:")]
         if bad:
             sig = "C19:cell-changed-by-run:" + bad[0].split(":", 1)[0].replace("ext", "external") + ":" + bad[0].split(":", 1)[1]
             rep.violation(sig, f"run {i} ({spec['kind']}, {r['outcome']}) changed process state outside the allow-list: {bad}",
